@@ -6,6 +6,7 @@ import (
 	"encoding/hex"
 	"fmt"
 	"strings"
+	"unicode/utf8"
 
 	"github.com/edutko/decipher/internal/oid"
 )
@@ -32,7 +33,7 @@ func FromRDNSequence(rdns pkix.RDNSequence) string {
 }
 
 func escapeRDNAttrValue(s string) string {
-	escaped := make([]rune, 0, len(s))
+	var escaped strings.Builder
 	for k, c := range s {
 		escape := false
 
@@ -48,12 +49,14 @@ func escapeRDNAttrValue(s string) string {
 		}
 
 		if escape {
-			escaped = append(escaped, '\\', c)
-		} else {
-			escaped = append(escaped, c)
+			escaped.WriteByte('\\')
 		}
+		// copy the octets themselves: an octet that is not valid UTF-8 (TeletexString values) ranges as U+FFFD,
+		// and writing that rune instead would replace the value's octet
+		_, w := utf8.DecodeRuneInString(s[k:])
+		escaped.WriteString(s[k : k+w])
 	}
-	return string(escaped)
+	return escaped.String()
 }
 
 func x500AttrTypeFromOID(id asn1.ObjectIdentifier) string {
